@@ -1,4 +1,5 @@
 import KmipProps.C07
+import KmipModel.ClientIO
 /-
   C15 — I/O timeouts are re-armed for every message, and absent when configured as zero.
   On the session model: `armRead` / `armWrite` are the SetReadDeadline / SetWriteDeadline calls with a fresh
@@ -260,3 +261,151 @@ example : session { exCfg with sessionAuth := none } [.request exReq1, .eof] =
      Ev.armRead, Ev.decode 1, Ev.close] := by decide
 
 end Kmip.Session
+
+/-! ### the Client's half: "the Client arms its deadlines the same way around every Send" -/
+namespace Kmip.ClientIO
+open Kmip.Client
+
+theorem pairsOk_append (e arm : Ev) : ∀ (a b : List Ev), pairsOk e arm a = true → pairsOk e arm b = true → b.head? ≠ some e →
+    pairsOk e arm (a ++ b) = true := by
+  intro a
+  induction a with
+  | nil => intro b _ hb _; simpa using hb
+  | cons x rest ih =>
+    intro b ha hb hh
+    cases rest with
+    | nil =>
+      cases b with
+      | nil => rfl
+      | cons y br =>
+        have hy : y ≠ e := by intro h; apply hh; simp [h]
+        simp [pairsOk, hy, hb]
+    | cons y rest' =>
+      simp only [pairsOk, Bool.and_eq_true] at ha
+      have := ih b ha.2 hb hh
+      simp only [List.cons_append] at this ⊢
+      simp only [pairsOk, Bool.and_eq_true]
+      exact ⟨ha.1, this⟩
+
+theorem armedBefore_append (e arm : Ev) (a b : List Ev) (ha : armedBefore e arm a = true) (hb : armedBefore e arm b = true) :
+    armedBefore e arm (a ++ b) = true := by
+  simp only [armedBefore, Bool.and_eq_true, bne_iff_ne, ne_eq] at ha hb ⊢
+  refine ⟨?_, pairsOk_append e arm a b ha.2 hb.2 hb.1⟩
+  cases a with
+  | nil => simpa using hb.1
+  | cons x r => simpa using ha.1
+
+theorem pairsOk_spec (e arm : Ev) : ∀ (l pre : List Ev) (p : Ev) (post : List Ev), pairsOk e arm l = true →
+    l = pre ++ p :: e :: post → p = arm := by
+  intro l
+  induction l with
+  | nil => intro pre p post _ h; simp at h
+  | cons x rest ih =>
+    intro pre p post ha h
+    cases pre with
+    | nil =>
+      simp only [List.nil_append, List.cons.injEq] at h
+      obtain ⟨rfl, rfl⟩ := h
+      simp only [pairsOk, Bool.and_eq_true, Bool.or_eq_true, bne_iff_ne, ne_eq, not_true_eq_false, false_or, beq_iff_eq] at ha
+      exact ha.1
+    | cons q pre' =>
+      simp only [List.cons_append, List.cons.injEq] at h
+      obtain ⟨rfl, hr⟩ := h
+      cases rest with
+      | nil => cases pre' <;> simp at hr
+      | cons y rest' =>
+        simp only [pairsOk, Bool.and_eq_true] at ha
+        exact ih pre' p post ha.2 hr
+
+/-- what `armedBefore` says, spelled out: `e` is never the first event, and wherever it occurs the event right before it is `arm` -/
+theorem armedBefore_spec (e arm : Ev) (l : List Ev) (h : armedBefore e arm l = true) :
+    (∀ post, l ≠ e :: post) ∧ (∀ pre p post, l = pre ++ p :: e :: post → p = arm) := by
+  simp only [armedBefore, Bool.and_eq_true, bne_iff_ne, ne_eq] at h
+  constructor
+  · intro post hl; apply h.1; simp [hl]
+  · intro pre p post hl; exact pairsOk_spec e arm l pre p post h.2 hl
+
+theorem sendEvs_armed_write (cfg : Cfg) (h : cfg.writeTimeout = true) (x : Exch) :
+    armedBefore .write .armWrite (sendEvs cfg x) = true := by
+  obtain ⟨rt, wt⟩ := cfg; obtain ⟨enc, wr⟩ := x
+  simp only at h; subst h
+  cases rt <;> cases enc <;> cases wr <;> decide
+
+theorem sendEvs_armed_read (cfg : Cfg) (h : cfg.readTimeout = true) (x : Exch) :
+    armedBefore .read .armRead (sendEvs cfg x) = true := by
+  obtain ⟨rt, wt⟩ := cfg; obtain ⟨enc, wr⟩ := x
+  simp only at h; subst h
+  cases wt <;> cases enc <;> cases wr <;> decide
+
+theorem step_armed (cfg : Cfg) (s : CState) (op : Op) :
+    (cfg.writeTimeout = true → armedBefore .write .armWrite (step cfg s op).2 = true) ∧
+    (cfg.readTimeout = true → armedBefore .read .armRead (step cfg s op).2 = true) := by
+  cases op with
+  | connect r =>
+    obtain ⟨rt, wt⟩ := cfg
+    constructor <;> intro _ <;> simp only [step] <;> cases r <;> cases rt <;> cases wt <;> decide
+  | close => constructor <;> intro _ <;> simp only [step] <;> split <;> decide
+  | send x =>
+    constructor <;> intro h <;> simp only [step] <;> split
+    · exact sendEvs_armed_write cfg h x
+    · decide
+    · exact sendEvs_armed_read cfg h x
+    · decide
+
+theorem trace_armed (cfg : Cfg) (s : CState) (ops : List Op) :
+    (cfg.writeTimeout = true → armedBefore .write .armWrite (trace cfg s ops) = true) ∧
+    (cfg.readTimeout = true → armedBefore .read .armRead (trace cfg s ops) = true) := by
+  induction ops generalizing s with
+  | nil => exact ⟨fun _ => rfl, fun _ => rfl⟩
+  | cons op rest ih =>
+    exact ⟨fun h => armedBefore_append _ _ _ _ ((step_armed cfg s op).1 h) ((ih _).1 h),
+           fun h => armedBefore_append _ _ _ _ ((step_armed cfg s op).2 h) ((ih _).2 h)⟩
+
+/-- C15, Client, WriteTimeout ≠ 0: whatever the Client is asked to do, in whatever order - connect, fail to connect, send
+    encodable and unencodable requests, see writes fail, close, reconnect -, every request it writes is written under a write
+    deadline armed immediately before it: a fresh one for each Send, however old the connection -/
+theorem C15_client_write_armed (cfg : Cfg) (h : cfg.writeTimeout = true) (s : CState) (ops : List Op) :
+    (∀ post, trace cfg s ops ≠ Ev.write :: post) ∧
+    (∀ pre p post, trace cfg s ops = pre ++ p :: Ev.write :: post → p = Ev.armWrite) :=
+  armedBefore_spec .write .armWrite _ ((trace_armed cfg s ops).1 h)
+
+/-- ... and with ReadTimeout ≠ 0 every wait for a response happens under a read deadline armed immediately before it -/
+theorem C15_client_read_armed (cfg : Cfg) (h : cfg.readTimeout = true) (s : CState) (ops : List Op) :
+    (∀ post, trace cfg s ops ≠ Ev.read :: post) ∧
+    (∀ pre p post, trace cfg s ops = pre ++ p :: Ev.read :: post → p = Ev.armRead) :=
+  armedBefore_spec .read .armRead _ ((trace_armed cfg s ops).2 h)
+
+/-- with a zero timeout the Client never touches that deadline -/
+theorem C15_client_zero_never (cfg : Cfg) (s : CState) (ops : List Op) :
+    (cfg.readTimeout = false → Ev.armRead ∉ trace cfg s ops) ∧ (cfg.writeTimeout = false → Ev.armWrite ∉ trace cfg s ops) := by
+  induction ops generalizing s with
+  | nil => simp [trace]
+  | cons op rest ih =>
+    have hs : (cfg.readTimeout = false → Ev.armRead ∉ (step cfg s op).2) ∧ (cfg.writeTimeout = false → Ev.armWrite ∉ (step cfg s op).2) := by
+      obtain ⟨rt, wt⟩ := cfg
+      cases op with
+      | connect r => constructor <;> intro h <;> simp only at h <;> subst h <;> simp only [step] <;> cases r <;> first | (cases rt <;> decide) | (cases wt <;> decide)
+      | close => constructor <;> intro _ <;> simp only [step] <;> split <;> decide
+      | send x =>
+        obtain ⟨enc, wr⟩ := x
+        constructor <;> intro h <;> simp only at h <;> subst h <;> simp only [step] <;> split <;>
+          first | decide | (cases rt <;> cases enc <;> cases wr <;> decide) | (cases wt <;> cases enc <;> cases wr <;> decide)
+    constructor
+    · intro h; simp only [trace, List.mem_append, not_or]; exact ⟨hs.1 h, (ih _).1 h⟩
+    · intro h; simp only [trace, List.mem_append, not_or]; exact ⟨hs.2 h, (ih _).2 h⟩
+
+/-- the age of the connection is irrelevant: what the n-th Send on a connection does is what the first does -/
+theorem C15_client_age_irrelevant (cfg : Cfg) (s : CState) (ops : List Op) (x : Exch) (hc : (ops.foldl (fun s op => (step cfg s op).1) s).conn = true) :
+    trace cfg s (ops ++ [Op.send x]) = trace cfg s ops ++ sendEvs cfg x := by
+  induction ops generalizing s with
+  | nil => simp only [List.foldl_nil] at hc; simp [trace, step, hc]
+  | cons op rest ih =>
+    simp only [List.foldl_cons] at hc
+    simp only [List.cons_append, trace, List.append_assoc]
+    rw [ih _ hc]
+
+/-- non-vacuity: a connected Client with both timeouts, two Sends -/
+example : trace ⟨true, true⟩ CState.fresh [.connect true, .send ⟨true, true⟩, .send ⟨true, true⟩] =
+    [.dial true, .armRead, .armWrite, .handshake, .armWrite, .write, .armRead, .read, .armWrite, .write, .armRead, .read] := by decide
+
+end Kmip.ClientIO
